@@ -11,19 +11,19 @@ CLAIMED = {
             "Trusted: Go runtime, math/big; the civil-calendar model (cross-checked against package time for every day enumerated)."),
     "C04": ("model_checking", "DESIGN.md §4 C04, §2 E1/E2",
             "stateless model checking of the real client: preemption-bounded DFS over all schedules of the sender / receiver / cancel-watch / peer goroutines and clock steps, crossed with an exhaustive fault enumeration",
-            "Seven query scenarios are executed on the real, instrumented ch.Client over a simulated connection inside a synctest bubble. For every fault of the outer enumeration (exception at every peer gate, stream cut and write failure at byte positions, every failing callback, unknown / unexpected / undecodable packets at every gate) every schedule up to the deviation bound stated in the evidence is executed and the closed-or-packet-boundary post-condition is probed with a real Ping and a real follow-up query. Quick completes bound 1 for gate faults (2 around the insert schema exchange) and bound 0 for byte faults; thorough bound 2 everywhere, 3 for the insert scenarios under a budget, bound 1 at every byte.",
+            "Seven query scenarios are executed on the real, instrumented ch.Client over a simulated connection inside a synctest bubble. For every fault of the outer enumeration (exception at every peer gate, stream cut and write failure at byte positions, every failing callback, unknown / unexpected / undecodable packets at every gate, the double faults cancel + exception and failing write + exception, and an exception that does not arrive whole: stream cut or server silent after every byte of an injected exception chain, or an undecodable exception body, at every gate) every schedule up to the deviation bound stated in the evidence is executed and the closed-or-packet-boundary post-condition is probed with a real Ping and a real follow-up query. Quick completes bound 1 for gate faults (2 around the insert schema exchange) and bound 0 for byte faults; thorough bound 2 everywhere, 3 for the insert scenarios under a budget, bound 1 at every byte.",
             "Trusted: Go runtime + testing/synctest, the instrumentation pass (cmd/vinstr) placing scheduling points at every sync / channel / context / connection operation, x/sync errgroup (instrumented, not assumed). Nothing is claimed beyond the completed bound or for faults outside the enumeration; weak-memory effects are not modelled."),
     "C10": ("model_checking", "DESIGN.md §4 C10, §2 E1/E2",
             "stateless model checking of the real client: a canceller thread (or a context deadline fired by the clock pseudo-thread) is placed by the preemption-bounded DFS at every scheduling point of every other thread",
-            "Query scenarios (select, insert, streamed insert, LZ4, telemetry, stalled writes) and the handshake run on the real instrumented client inside a synctest bubble; explicit cancel() and context deadlines (1 s / 5 s fake) with read timeouts 3 s / 100 ms; every schedule up to the bound (quick 1, thorough 2; handshake one more in thorough) is executed and checked for: error matches the context, return within read timeout + 1 s of fake time after the context ended (clock deviations discounted), exactly one well-formed Cancel byte or none, connection and client closed (or, when the cancellation followed EndOfStream, a fully usable client), no library goroutine alive at return.",
+            "Query scenarios (select, insert, streamed insert, LZ4, telemetry, stalled writes, a server that falls silent in mid-query, and the same queries on a client with a history: a previous query on the same client that ended with a server exception or ended well) and the handshake run on the real instrumented client inside a synctest bubble; explicit cancel() (also of a context that carries a far deadline) and context deadlines (1 s / 5 s fake) with read timeouts 3 s / 100 ms; every schedule up to the bound (quick 1, thorough 2; handshake one more in thorough) is executed and checked for: error matches the context, return within read timeout + 1 s of fake time after the context ended (clock deviations discounted), exactly one well-formed Cancel byte or none, connection and client closed (or, when the cancellation followed EndOfStream, a fully usable client), no library goroutine alive at return.",
             "Trusted: as C04. A cancellation that lands after the server's EndOfStream was consumed is treated as landing after the query (client may stay open if the C04 probe passes). Failures with a cause of their own that precede the context's end (read time-out of the hello, handshake time-out) are C13's business and are not judged here."),
     "C12": ("model_checking", "DESIGN.md §4 C12, §2 E1",
-            "schedule enumeration (preemption-bounded DFS under the controlled scheduler) with the Go race detector as the per-execution oracle; the scheduler's quiescence barrier adds no happens-before edges, so -race sees only the library's own synchronisation",
-            "The query scenarios of C04 plus an insert during which the server reports progress while the client still streams, each with OpenTelemetry instrumentation on and off, fault-free and with a server exception, plus Close / IsClosed / ServerInfo / cancel from a foreign goroutine, are explored up to the bound (quick 1, thorough 2) in a -race build of the instrumented client; any report whose two accesses both lie in ch-go packages is a violation, attributed to the schedule that produced it.",
+            "schedule enumeration (preemption-bounded DFS under the controlled scheduler) with the Go race detector as the per-execution oracle; the scheduler's quiescence barrier and its baton hand-off (run under runtime.RaceDisable) add no happens-before edges, so -race sees only the library's own synchronisation; every run starts with a detector self-test (a deliberate race between two scheduled goroutines must be reported)",
+            "The query scenarios of C04 plus an insert during which the server reports progress while the client still streams, each with OpenTelemetry instrumentation on and off, fault-free and with a server exception, plus Close / IsClosed / ServerInfo / cancel from a foreign goroutine, plus two independent clients running the same query side by side under each compression method (quick: default schedule), are explored up to the bound (quick 1, thorough 2) in a -race build of the instrumented client; any report whose two accesses both lie in ch-go packages or in third-party code called by them (attributed to the nearest ch-go caller) is a violation, attributed to the schedule that produced it.",
             "Trusted: the Go race detector (happens-before based: it reports races that the executed schedule exposes, schedules beyond the bound and code the scenarios never run are not covered); simnet's real mutex stands for the kernel's socket synchronisation; no-op OTel providers. Pool scenarios are covered with C11's harness."),
     "C02": ("exploration", "DESIGN.md §4 C02",
             "bounded-exhaustive enumeration of query shapes x compression x revision; each case executes the real Connect + Do under the controlled scheduler (default schedule) and the recorded client bytes are compared with the independent reference encoding",
-            "All queries with at most 2 (thorough 3) fields deviating from a base query over per-field alphabets x 5 compression settings at the newest revision, and all queries with at most 1 deviation x every revision of the threshold-neighbour set from 54420 x {Disabled, LZ4}: the Query packet must equal the reference encoding byte for byte, every block must be exactly one Data packet (one checksummed frame iff compression is on) that the reference decoder reads back to the column contents, and nothing else may be written.",
+            "All queries with at most 2 (thorough 3) fields deviating from a base query over per-field alphabets (input columns of 32 types, sent at once or streamed in two rounds, and two pseudo-random blocks of 190-320 KB) x 5 compression settings at the newest revision, and all queries with at most 1 deviation x every revision of the threshold-neighbour set from 54420 x {Disabled, LZ4}: the Query packet must equal the reference encoding byte for byte, every block must be exactly one Data packet (one checksummed frame iff compression is on) that the reference decoder reads back to the column contents, and nothing else may be written.",
             "Trusted: refwire/refcol (written from the protocol description, independent of proto/compress), city/lz4/zstd libraries for frames. Client-info fields the caller does not control (client name, version) are taken from the hello the same client sent; the patch number is not compared."),
     "C03": ("exploration", "DESIGN.md §4 C03",
             "bounded-exhaustive enumeration of server packet scripts; each case executes the real client against the scripted reference peer and is compared with a reference interpreter of the specified receive loop",
@@ -35,7 +35,7 @@ CLAIMED = {
             "Trusted: as C03. Bytes consumed from the transport are not compared (the client's buffered reader legitimately reads ahead). proto.Reader-level segmentation of whole blocks is part of C07's corpus run."),
     "C09": ("model_checking", "DESIGN.md §4 C09",
             "explicit enumeration of all OnInput callback histories up to a depth against a list-of-values reference model; every history is executed on the real client and the blocks on the wire are decoded by the reference model",
-            "All histories of <= 3 (thorough 4) rounds over 9 callback behaviours (append, Reset+append, in-place overwrite, nil unchanged, io.EOF with / without rows, wrapped io.EOF, error) x initial rows {0, 2} x 6 column kinds (incl. zero-copy UInt64 / FixedString, LowCardinality, Array, inferred Enum) alone or with a second column x {plain, LZ4}; thorough additionally explores all schedules with <= 1 preemption while the server sends Progress. The server must receive exactly the model's snapshots, in order, then one empty block; callback errors must stop sending and surface from Do.",
+            "All histories of <= 3 (thorough 4) rounds over 9 callback behaviours (append, Reset+append, in-place overwrite, nil unchanged, io.EOF with / without rows, wrapped io.EOF, error) x initial rows {0, 2} (and a 30000-row first block for histories of <= 2 rounds) x 6 column kinds (incl. zero-copy UInt64 / FixedString, LowCardinality, Array, inferred Enum) alone or with a second column x {plain, LZ4}; thorough additionally explores all schedules with <= 1 preemption while the server sends Progress. The server must receive exactly the model's snapshots, in order, then one empty block; callback errors must stop sending and surface from Do.",
             "Trusted: refcol decoding of the client's blocks. States = histories (each history is a distinct model state sequence)."),
     "C13": ("fault_enumeration", "DESIGN.md §4 C13",
             "exhaustive enumeration of (client revision, server revision) pairs over the threshold-neighbour set and of handshake fault responses (every truncation point of the hello, exception, wrong packet, garbage, cut, silence, late hello), each executed on the real Connect / Dial over the simulated connection with the fake clock",
